@@ -51,6 +51,10 @@ def expected_lines_tcp(p):
 
 
 def run(rep, tier, seed, replay):
+    if replay and E2E.replay_case(rep, "C18", replay):
+        rep.cov.setdefault("trusted_base", ["end-to-end replay of one case against the built binary"])
+        rep.cov.setdefault("rule", "replay of one end-to-end case")
+        return
     rep.cov["trusted_base"] = TRUSTED
     rnd = random.Random(seed)
     cases, meta = [], []
@@ -160,8 +164,9 @@ def run(rep, tier, seed, replay):
     if not replay and len(rep.violations) < 5:
         E2E.run_listener_scenarios(rep, "C18", tier, seed)
         E2E.run(rep, "C18", tier, seed, n_quick=4, n_thorough=60, gen=E2E.gen_order_case, key="e2e_order")
+        E2E.run(rep, "C18", tier, seed, n_quick=3, n_thorough=24, gen=E2E.gen_big_datagram_case, key="e2e_bigdatagram")
         rep.cov["rule"] += ("; plus, against the built binary (main.go's wiring of the three listeners): %d UDP bursts against a packet queue of 0-4 entries (packets = processed + dropped, "
                             "no line lost or doubled), the relay on every transport (%d runs: each non-empty line relayed once, in order), and %d datagram-order histories (a 1500-4500 line "
-                            "packet that ends by setting a gauge, directly followed by packets that move it)" % (rep.extra.get("e2e_bursts", 0), rep.extra.get("e2e_relay_runs", 0), rep.extra.get("e2e_order_cases", 0)))
+                            "packet that ends by setting a gauge, directly followed by packets that move it) and %d datagrams of 65507-65535 bytes" % (rep.extra.get("e2e_bursts", 0), rep.extra.get("e2e_relay_runs", 0), rep.extra.get("e2e_order_cases", 0), rep.extra.get("e2e_bigdatagram_cases", 0)))
     rep.sample(dict(case=cases[0][:200], impl=impl[0][:300]))
     rep.sample(dict(case=cases[-1][:200], impl=impl[-1][:300]))
